@@ -220,9 +220,9 @@ func VerifXMLReaccept(n int) {
 	vReach("end")
 }
 
-var verifXMLUnits = []string{"]", "&gt;", ">", "&lt;", "&amp;", "x", " ", "<![CDATA[", "]]>", "&#93;"}
+var verifXMLUnits = []string{"]", "&gt;", ">", "&lt;", "&amp;", "x", " ", "<![CDATA[", "]]>", "&#93;", "<b>", "</b>", "<?p?>", "<!--c-->"}
 
-// VerifXMLUnits: <a>U1..Un</a> with every Ui one of 10 units (brackets, the references to > < &, text, a space, the
+// VerifXMLUnits: <a>U1..Un</a> with every Ui one of 14 units (brackets, the references to > < &, text, a space, the
 // CDATA delimiters): `]]>` fragments in text and across CDATA sections (the `]]]]><![CDATA[>` idiom), references next
 // to brackets. Longer than the byte-level holes reach.
 func VerifXMLUnits(n int) {
@@ -232,5 +232,19 @@ func VerifXMLUnits(n int) {
 	}
 	parts = append(parts, []byte("</a>"))
 	buf, total := verifBuild(parts...)
+	verifXMLCheck(buf, total)
+}
+
+// VerifXMLNestedBetween: <r>H0<a>H1 ITEM H2</a>H3</r> with a comment / PI / empty element / CDATA between two texts
+// inside a nested element that itself follows text: the look-ahead of the token buffer while tokens are pending.
+func VerifXMLNestedBetween(n int) {
+	h0, h1, h2, h3 := vBytes("h0", n), vBytes("h1", n), vBytes("h2", n), vBytes("h3", n)
+	verifInAlphabet(h0, " x")
+	verifInAlphabet(h1, " \nx")
+	verifInAlphabet(h2, " y")
+	verifInAlphabet(h3, " z")
+	l0, l1, l2, l3 := vChoice("l0", n+1), vChoice("l1", n+1), vChoice("l2", n+1), vChoice("l3", n+1)
+	item := verifXMLBetween[vChoice("item", len(verifXMLBetween))]
+	buf, total := verifBuild([]byte("<r>"), h0[:l0], []byte("<a>"), h1[:l1], []byte(item), h2[:l2], []byte("</a>"), h3[:l3], []byte("</r>"))
 	verifXMLCheck(buf, total)
 }
